@@ -77,9 +77,10 @@ Example C19_canon_nonvacuous :
   exists r, canonicalize_expr 50 e = Some r /\ r <> e.
 Proof. eexists. split; [vm_compute; reflexivity | discriminate]. Qed.
 
-(* known finding F22 (class canon_sum_folds_to_leaf): the assert after reassociation fails *)
-Example C19_canon_assert_refuted :
-  canonicalize_expr 50 (EBin KAdd (EBin KAdd (EDim 0) (ECst 2)) (ECst (-2))) = None.
+(* regression for the repaired defect F22: a reassociated sum that folds to a leaf is returned
+   (before the fix: AssertionError, i.e. None) *)
+Example C19_canon_sum_folds_to_leaf :
+  canonicalize_expr 50 (EBin KAdd (EBin KAdd (EDim 0) (ECst 2)) (ECst (-2))) = Some (EDim 0).
 Proof. vm_compute. reflexivity. Qed.
 
 (* ---- (b) StridePattern.canonicalize (generated model Gen/StrideCanon.v) ------------------------ *)
@@ -164,3 +165,66 @@ Theorem C19_stride_canon_idempotent :
     StridePattern_canonicalize p = Some p' -> StridePattern_canonicalize p' = Some p'.
 Proof. exact stride_canon_idempotent. Qed.
 Print Assumptions C19_stride_canon_idempotent.
+
+(* ---- (d) continued: AccessPattern / SchedulePattern canonicalize and inner_dims ------------------ *)
+(* every point of the iteration box (dynamic bounds: any index >= 0) is mapped to the same element by the
+   canonical pattern at the point with the removed coordinates dropped; the reduced point lies in the
+   canonical box (so dimensions with bound None are kept) *)
+Theorem C19_access_canonicalize_eval :
+  forall p x, wf_ap p -> in_box (ap_bounds p) x ->
+    at_eval (ap_pattern (ap_canonicalize p)) (select (map keep_bound (ap_bounds p)) x) = at_eval (ap_pattern p) x
+    /\ in_box (ap_bounds (ap_canonicalize p)) (select (map keep_bound (ap_bounds p)) x)
+    /\ at_eval (ap_pattern p) x <> None.
+Proof. exact ap_canonicalize_eval. Qed.
+Print Assumptions C19_access_canonicalize_eval.
+
+Theorem C19_access_canonicalize_idempotent :
+  forall p, wf_ap p -> ap_canonicalize (ap_canonicalize p) = ap_canonicalize p.
+Proof. exact ap_canonicalize_idempotent. Qed.
+Print Assumptions C19_access_canonicalize_idempotent.
+
+(* inner_dims(dim) evaluated at x' = the pattern evaluated at (0, ..., 0, x'); bounds are the last dim bounds *)
+Theorem C19_access_inner_dims_eval :
+  forall p dim q x', wf_ap p -> ap_inner_dims p dim = Some q -> length x' = tn (ap_pattern q) ->
+    at_eval (ap_pattern q) x' = at_eval (ap_pattern p) (repeat 0 (tn (ap_pattern p) - length x') ++ x')
+    /\ ap_bounds q = take_last (Z.to_nat dim) (ap_bounds p).
+Proof. exact ap_inner_dims_eval. Qed.
+Print Assumptions C19_access_inner_dims_eval.
+
+Example C19_access_canonicalize_nonvacuous :
+  let p := AP [Some 1; None; Some 4; Some 1] (AT [[7; 2; 3; 9]; [0; 1; 0; 5]] [10; 0] 4) in
+  ap_canonicalize p = AP [None; Some 4] (AT [[2; 3]; [1; 0]] [10; 0] 2) /\ in_box (ap_bounds p) [0; 6; 3; 0].
+Proof. split; [reflexivity | repeat constructor; lia]. Qed.
+
+(* ---- (e) print / parse of the custom attributes (token-level model Model/C19Text.v) ---------------- *)
+From Snax Require Import Model.C19Text Proofs.C19TextProofs.
+
+(* StridePattern: parsing the printed tokens gives back the attribute (any integers, any lengths with
+   len(ub) = len(ts), which the attribute verifier requires), followed by any remaining tokens *)
+Theorem C19_stride_pattern_print_parse :
+  forall p rest, length (sp_ub p) = length (sp_ts p) -> parse_sp (print_sp p ++ rest) = Some (p, rest).
+Proof. exact sp_print_parse. Qed.
+Print Assumptions C19_stride_pattern_print_parse.
+
+(* streamer configuration: print then parse returns the same streamers with system type Regular ... *)
+Theorem C19_streamer_cfg_print_parse_partial :
+  forall c rest, cfg_ok c -> sc_sys c = SysRegular -> parse_cfg (print_cfg c ++ rest) = Some (c, rest).
+Proof. exact cfg_print_parse_regular. Qed.
+Print Assumptions C19_streamer_cfg_print_parse_partial.
+
+(* ... so the full statement is refuted for every xDMA configuration (known finding F13,
+   class xdma_system_type_print) *)
+Theorem C19_streamer_cfg_print_parse_refuted :
+  forall c rest, cfg_ok c -> sc_sys c = SysXdma ->
+    exists c', parse_cfg (print_cfg c ++ rest) = Some (c', rest) /\ c' <> c /\ sc_streamers c' = sc_streamers c.
+Proof. exact cfg_print_parse_xdma_refuted. Qed.
+Print Assumptions C19_streamer_cfg_print_parse_refuted.
+
+Example C19_streamer_cfg_nonvacuous :
+  let c := SConfig [Streamer SReader [FNormal; FReuse] [8; 8] [OAddrRemap; OByteMask]; Streamer SWriter [] [] []] SysRegular in
+  cfg_ok c /\ length (print_cfg c) = 31%nat.
+Proof.
+  split; [split; [discriminate|] | reflexivity].
+  constructor; [unfold streamer_ok; cbn; repeat constructor; lia|].
+  constructor; [unfold streamer_ok; cbn; constructor | constructor].
+Qed.
